@@ -75,6 +75,8 @@ def run_unit(desc):
                                    "role": "stand-in (out of subset)" if h.unsupported else "cross-check of the encoding against CPython"})
             if not h.unsupported and st.get("found") and all(r.verdict == "proved" for r in h.results):
                 rep["crash"] = f"encoding cross-check failed: verifier proved {c.uid} but native run disagrees: {st['found'][0]}"
+            if res is None:
+                rep["crash"] = f"native runner failed (no verdict from the bounded run): {err}"
     elif getattr(c, "timed", False) and not c.witness:
         # timed operators: replay and cross-check on a TestScheduler against a reference written from the property text
         opname = {"sample_observable": "sample"}.get(c.name.split("/")[0], c.name.split("/")[0])
@@ -91,6 +93,8 @@ def run_unit(desc):
                                    "role": "stand-in (out of subset)" if h.unsupported else "cross-check of the contract against CPython"})
             if not h.unsupported and st.get("found") and all(r.verdict == "proved" for r in h.results):
                 rep["crash"] = f"cross-check failed: verifier proved {c.uid} but the native timed run disagrees: {st['found'][0]}"
+            if res is None:
+                rep["crash"] = f"native runner failed (no verdict from the bounded run): {err}"
     elif c.witness:
         rep["replayable"] = {"runner": "diffrun.py", "module": desc["module"], "name": c.name}
         # the executable twin of the spec against the literal list expression (validates the SPEC, bounded)
